@@ -69,6 +69,10 @@ var props = map[string]propInfo{
 }
 
 // memLimitKB bounds the address space of the workers of crash-prone properties.
+// distinctSchedules is the number of distinct schedule signatures over all
+// runs of the current check (an interleaving-coverage measure for evidence).
+var distinctSchedules int
+
 var memLimitKB = map[string]int{"C11": 3 << 20, "C18": 4 << 20}
 
 func main() {
@@ -598,6 +602,18 @@ func check(id, tier string, nworkers, runsOverride int, budgetOverride float64, 
 		}
 	}
 
+	skeys := map[uint64]struct{}{}
+	for w := 0; w < nworkers; w++ {
+		kb, err := os.ReadFile(filepath.Join(work, fmt.Sprintf("w%d.keys.sched", w)))
+		if err != nil {
+			continue
+		}
+		for i := 0; i+8 <= len(kb); i += 8 {
+			skeys[binary.LittleEndian.Uint64(kb[i:])] = struct{}{}
+		}
+	}
+	distinctSchedules = len(skeys)
+
 	exit := 0
 	var vline string
 	nviol := 0
@@ -740,6 +756,7 @@ func writeEvidenceFile(id, tier string, seed uint64, pi propInfo, b *built, agg 
 		"crash_points":                     agg.ints["crash_points"],
 		"site_coverage":                    map[string]interface{}{"hit": hit, "total": len(total), "never_hit": never, "note": "all instrumented synchronisation sites of the library (statement-level yields excluded); sites outside this property's code paths are expected in never_hit"},
 		"switch_pairs":                     len(agg.maps["switch_pairs"]),
+		"distinct_schedule_signatures":     distinctSchedules,
 		"switch_pairs_top":                 topN(agg.maps["switch_pairs"], 12),
 		"determinism_rechecks":             map[string]int64{"done": agg.ints["determinism_rechecks"], "mismatches": agg.ints["determinism_mismatches"]},
 		"components": map[string]interface{}{
